@@ -5,7 +5,9 @@ CONSTANTS
   MaxDepth = 2
   MixKinds = FALSE
   AsmForms = FALSE
-  DevsOn = {"ExternInheritsNoLinkage", "ThreadNoTentative", "ThreadMismatchNotDiagnosed", "InlineLateExternal", "NoUsedInternalUndefDiag"}
+  AsmFirst = FALSE
+  Kinds = {"obj", "func"}
+  DevsOn = {"ThreadNoTentative", "ThreadMismatchNotDiagnosed", "InlineLateExternal", "NoUsedInternalUndefDiag"}
   OkPrefix = FALSE
   SampleMod = 32
   Emit = "all"
